@@ -57,3 +57,81 @@ pub unsafe extern "C" fn setsockopt(
     }
     libc::syscall(libc::SYS_setsockopt, fd, level, name, val, len) as libc::c_int
 }
+
+// ---------------------------------------------------------------------------------------------------
+// Public addresses on loopback: a node (or scripted peer) bound to 127.0.0.1:p can be given a public
+// IPv4 address A. Every datagram it sends is then seen by its receiver as coming from A:p, and
+// datagrams addressed to A:p are delivered to 127.0.0.1:p. Ports are unique per socket, so the port
+// alone identifies the sender.
+use std::sync::atomic::AtomicU32;
+
+#[allow(clippy::declare_interior_mutable_const)]
+const ZERO: AtomicU32 = AtomicU32::new(0);
+static PORT_TO_IP: [AtomicU32; 65536] = [ZERO; 65536];
+static MAPPED_IPS: [AtomicU32; 2048] = [ZERO; 2048];
+static MAPPED_COUNT: AtomicU32 = AtomicU32::new(0);
+
+pub fn map_public(port: u16, ip: std::net::Ipv4Addr) {
+    let ip = u32::from(ip);
+    PORT_TO_IP[port as usize].store(ip, Ordering::SeqCst);
+    let n = MAPPED_COUNT.load(Ordering::SeqCst) as usize;
+    if !(0..n).any(|i| MAPPED_IPS[i].load(Ordering::SeqCst) == ip) && n < MAPPED_IPS.len() {
+        MAPPED_IPS[n].store(ip, Ordering::SeqCst);
+        MAPPED_COUNT.store(n as u32 + 1, Ordering::SeqCst);
+    }
+}
+
+pub fn unmap_all() {
+    for p in PORT_TO_IP.iter() {
+        p.store(0, Ordering::SeqCst);
+    }
+    MAPPED_COUNT.store(0, Ordering::SeqCst);
+}
+
+fn is_mapped_ip(ip: u32) -> bool {
+    let n = MAPPED_COUNT.load(Ordering::SeqCst) as usize;
+    (0..n).any(|i| MAPPED_IPS[i].load(Ordering::SeqCst) == ip)
+}
+
+#[no_mangle]
+pub unsafe extern "C" fn recvfrom(
+    fd: libc::c_int,
+    buf: *mut libc::c_void,
+    len: libc::size_t,
+    flags: libc::c_int,
+    addr: *mut libc::sockaddr,
+    addrlen: *mut libc::socklen_t,
+) -> libc::ssize_t {
+    let r = libc::syscall(libc::SYS_recvfrom, fd, buf, len, flags, addr, addrlen) as libc::ssize_t;
+    if r >= 0 && !addr.is_null() && !addrlen.is_null() && (*addrlen) as usize >= std::mem::size_of::<libc::sockaddr_in>() {
+        let sa = addr as *mut libc::sockaddr_in;
+        if (*sa).sin_family == libc::AF_INET as libc::sa_family_t && u32::from_be((*sa).sin_addr.s_addr) == 0x7f00_0001 {
+            let port = u16::from_be((*sa).sin_port);
+            let ip = PORT_TO_IP[port as usize].load(Ordering::SeqCst);
+            if ip != 0 {
+                (*sa).sin_addr.s_addr = ip.to_be();
+            }
+        }
+    }
+    r
+}
+
+#[no_mangle]
+pub unsafe extern "C" fn sendto(
+    fd: libc::c_int,
+    buf: *const libc::c_void,
+    len: libc::size_t,
+    flags: libc::c_int,
+    addr: *const libc::sockaddr,
+    addrlen: libc::socklen_t,
+) -> libc::ssize_t {
+    if !addr.is_null() && addrlen as usize >= std::mem::size_of::<libc::sockaddr_in>() {
+        let sa = *(addr as *const libc::sockaddr_in);
+        if sa.sin_family == libc::AF_INET as libc::sa_family_t && is_mapped_ip(u32::from_be(sa.sin_addr.s_addr)) {
+            let mut copy = sa;
+            copy.sin_addr.s_addr = 0x7f00_0001u32.to_be();
+            return libc::syscall(libc::SYS_sendto, fd, buf, len, flags, &copy as *const libc::sockaddr_in, addrlen) as libc::ssize_t;
+        }
+    }
+    libc::syscall(libc::SYS_sendto, fd, buf, len, flags, addr, addrlen) as libc::ssize_t
+}
